@@ -468,6 +468,16 @@ pub fn generate(args: &Args, out: &mut Out) {
         crate::parse::gen_ws(&mut r, &mut s);
         out.case_str(&format!("s {} {}", 1 + k % 3, hex_str(&s)));
     }
+    // 3c. long arrays (7..20 items) with non-empty containers among the items, also as an entry value
+    for n in [7usize, 8, 9, 10, 17, 20] {
+        for pos in [0usize, 1, n / 2, n - 2, n - 1] {
+            for nd in ["[1,[2]]", "{\"a\":{\"b\":[1]}}", "{\"k\":1,\"k\":[2,3]}"] {
+                let items: Vec<String> = (0..n).map(|i| if i == pos { nd.to_string() } else { i.to_string() }).collect();
+                out.case_str(&format!("s 0 {}", hex_str(&format!("[{}]", items.join(",")))));
+                out.case_str(&format!("s 0 {}", hex_str(&format!("{{\"w\": [{}], \"z\": {}}}", items.join(" , "), nd))));
+            }
+        }
+    }
     // 4. conversions with a wrong-kind value planted at every leaf position
     let nconv = if full { 6000 } else { 500 };
     for k in 0..nconv {
